@@ -322,10 +322,16 @@ def jobs(tier, seed):
             js.append({"fn": "vf.props.c19:job_reactive_exhaustive", "args": {"table": table, "length": length, "shard": s, "nshards": 4 if tier == "quick" else 8}})
     for s in range(2):
         js.append({"fn": "vf.props.c19:job_reactive_random", "args": {"n": 1500 * k, "seed": seed * 1000 + s}})
-    for s in range(3):
-        js.append({"fn": "vf.props.c19:job_adaptive", "args": {"n": 2000 * k, "seed": seed * 1000 + 10 + s}})
-    for s in range(3):
-        js.append({"fn": "vf.props.c19:job_gate", "args": {"n": 3000 * k, "seed": seed * 1000 + 20 + s}})
+    if tier == "quick":
+        for s in range(3):
+            js.append({"fn": "vf.props.c19:job_adaptive", "args": {"n": 2000, "seed": seed * 1000 + 10 + s}})
+        for s in range(3):
+            js.append({"fn": "vf.props.c19:job_gate", "args": {"n": 3000, "seed": seed * 1000 + 20 + s}})
+    else:
+        for s in range(16):
+            js.append({"fn": "vf.props.c19:job_adaptive", "args": {"n": 6000, "seed": seed * 1000 + 10 + s}})
+        for s in range(8):
+            js.append({"fn": "vf.props.c19:job_gate", "args": {"n": 18000, "seed": seed * 1000 + 40 + s}})
     return js
 
 
